@@ -629,8 +629,9 @@ func (n *Node) emit(leg *Leg, snd, dst *world.Account) {
 			}
 		}
 	}
-	// the transaction itself travels to the destination shard
-	if leg.Side == SideSender && !dataEmitted && !bytes.Equal(c.Caller, c.Recipient) {
+	// the transaction itself travels to the destination shard - only a user's transaction does: a
+	// call made by a contract reaches another shard solely through the output transfers it emits
+	if leg.Side == SideSender && !dataEmitted && !bytes.Equal(c.Caller, c.Recipient) && !vmcommon.IsSmartContractAddress(c.Caller) {
 		rs := n.shardOf(c.Recipient)
 		if rs < n.W.NumShards && rs != leg.Shard {
 			n.msgID++
